@@ -499,7 +499,7 @@ def main(tier, replay):
                     stats.setdefault("sender_prims", {})[f[1]] = int(f[2])
                 elif f[0].startswith("MISMATCH"):
                     mism.append(f)
-                elif f[0] in ("INVARIANT", "TRUTH-NOT-WF", "HISTORY"):
+                elif f[0] in ("INVARIANT", "TRUTH-NOT-WF", "HISTORY", "PD-NOT-TRUTH"):
                     invs.append(f)
             seqs = read_seqs(trace)
             del trace
@@ -552,6 +552,7 @@ def main(tier, replay):
                              "case": [m[1], int(m[2]), idx + 1 if idx >= 0 else -1], "operation": " ".join(m[4:6]),
                              "what": ("the cache content after this operation violates the invariant cinv relative to the ground truth: " + " ".join(m[6:7])) if m[0] == "INVARIANT"
                                      else ("the region states reported by PD / the stores in this sequence break the epoch discipline relative to the final ground truth (hist_okb false): " + " ".join(m[6:7])) if m[0] == "HISTORY"
+                                     else ("after the quiescent point PD / a store does not report the ground truth (hypothesis of C09_converges): " + " ".join(m[6:7])) if m[0] == "PD-NOT-TRUTH"
                                      else "the ground truth at a quiescent point is not a partition into led regions (truth_wfb false)",
                              "state": m[7:8], "trace": seq_excerpt(sq, idx if idx >= 0 else 10 ** 9) if sq else []})
             if mism and not [f for f in fails if not f["finding_class"]]:
@@ -579,7 +580,7 @@ def main(tier, replay):
                     "rounds; PD answers from stale snapshots with probability 0/0.25/0.5; distinct = distinct (op,args,PD answers,result,index) among operations "
                     "that touch PD or the merger",
                samples=samples, traces_validated_against_impl=mstats.get("cases", 0), input_distribution=classes,
-               sequences=mstats.get("seqs", 0), store_replies_compared=mstats.get("replies", 0), invariant_states_checked=mstats.get("inv_checked", 0), invariant_failures=len(invs), truth_wf_checked=mstats.get("wf_checked", 0), histories_checked=mstats.get("hist_checked", 0), history_states=mstats.get("hist_states", 0), model_mismatches=len(mism), oracle_failures=len([f for f in fails if not f["finding_class"]]),
+               sequences=mstats.get("seqs", 0), store_replies_compared=mstats.get("replies", 0), invariant_states_checked=mstats.get("inv_checked", 0), invariant_failures=len(invs), truth_wf_checked=mstats.get("wf_checked", 0), histories_checked=mstats.get("hist_checked", 0), pd_truth_answers_checked=mstats.get("pd_truth_checked", 0), history_states=mstats.get("hist_states", 0), model_mismatches=len(mism), oracle_failures=len([f for f in fails if not f["finding_class"]]),
                known_finding_hits=len([f for f in fails if f["finding_class"]]), bucket_lookups=stats.get("bucket_lookups", 0), stuck_rounds=stats.get("stuck_rounds", 0), sender_convergences=stats.get("sender_convs", 0), sender_effects_explained=stats.get("sender_prims", {}), replica_reads=stats.get("replica_reads", 0), observations={"bucket_fallback_unclamped": stats.get("obs_bucket_fallback_unclamped", 0), "follower_read_seed_wrap_falls_back_to_leader": stats.get("obs_follower_seed_wrap", 0), "probe_follower_wrap": stats.get("probe_follower_wrap", [])},
                convergence_rounds={str(k): n for k, n in sorted(stats["conv_rounds"].items())}, convergence_bound=CONV_BOUND)
     rc = v.finish()
